@@ -238,7 +238,7 @@ pub fn check(c: &Case, st: &mut Stats) -> Result<(), Violation> {
 
 /// every f32 bit pattern (strided in quick) through every distinct curve direction, hooks armed
 fn curve_sweep(ctx: &Ctx, st: &mut Stats) -> Vec<Violation> {
-    let stride: u64 = ctx.pick(1021, 1);
+    let stride: u64 = ctx.pick(509, 1);
     let off = if stride > 1 { ctx.seed % stride } else { 0 };
     let count = ((1u64 << 32) - off + stride - 1) / stride;
     let block = 1u64 << 16;
@@ -286,7 +286,7 @@ fn curve_sweep(ctx: &Ctx, st: &mut Stats) -> Vec<Violation> {
 pub fn run(ctx: &Ctx, st: &mut Stats) -> Vec<Violation> {
     // the checked profile is ~10x slower: a quarter of the cases there
     let scale = if cfg!(debug_assertions) { 4 } else { 1 };
-    let mut v = run_proptest(ctx, st, "histories", ctx.pick(60_000, 2_000_000) / scale, strategy, check);
+    let mut v = run_proptest(ctx, st, "histories", ctx.cases(120_000, 2_000_000) / scale, strategy, check);
     if !v.is_empty() {
         return v;
     }
